@@ -432,6 +432,52 @@ def c16_g(ctx):
     ctx.check(okt, es, 'rho_t = 1 - (W - mean autocov_t) / var+', '',
               'the autocorrelation estimate is not 1 - (W - autocov_t) / var+', fn=es,
               node=temps[0])
+    # the lag-t autocovariance: unbiased estimate from the zero-padded FFT of the centred
+    # chains, averaged over the chains at the running lag
+    am = None
+    for s_ in subterms(tt):
+        am = am or match(s_, pattern('np.mean(_a[:, _l])'))
+    oka = False
+    if am is not None:
+        ma = match(am['a'], pattern(
+            'np.fft.irfft(np.abs(np.fft.rfft(_C - np.mean(_C, axis=1)[:, None], _P)) ** 2)'
+            '[:, :_N].real / np.arange(_N, 0, -1)'))
+        oka = ma is not None and ma['C'] == base and ma['N'] == n_t and match_any(
+            ma['P'], ('int(2 ** np.ceil(1 + np.log2(_N)))', '2 * _N', '2 * _N - 1')) is not None \
+            and match_any(ma['P'], ('int(2 ** np.ceil(1 + np.log2(_N)))', '2 * _N',
+                                    '2 * _N - 1'))['N'] == n_t
+    ctx.check(oka, es, 'autocovariance: zero-padded FFT of the centred chains / (n - lag)',
+              'irfft(|rfft(chains - means, >= 2n)|^2)[:, :n].real / arange(n, 0, -1)',
+              'the lag autocovariances are not the unbiased estimate from the zero-padded FFT '
+              'of the chains centred at their own means', fn=es, node=temps[0])
+    # the lag advances by one with every summed term
+    lag_t = am['l'] if am is not None else None
+    okg = False
+    wl = [n_ for n_ in own_nodes(es.node) if isinstance(n_, ast.While)]
+    if wl and lag_t is not None:
+        incs = [s_ for s_ in ast.walk(wl[0]) if isinstance(s_, ast.AugAssign) and
+                isinstance(s_.op, ast.Add) and ex.raw(s_.value) == ('const', 1) and
+                isinstance(s_.target, ast.Name) and
+                any(isinstance(x, ast.Name) and x.id == s_.target.id
+                    for x in ast.walk(wl[0].test))] + \
+               [s_ for s_ in ast.walk(wl[0]) if isinstance(s_, ast.Assign) and
+                isinstance(s_.targets[0], ast.Name) and
+                match(ex.raw(s_.value), pattern('{} + 1'.format(s_.targets[0].id))) is not None
+                and any(isinstance(x, ast.Name) and x.id == s_.targets[0].id
+                        for x in ast.walk(wl[0].test))]
+        if len(incs) == 1:
+            # every trip round the loop passes the increment (the other way out is the break)
+            cfg = cfg_of(es)
+            hdr = cfg.by_stmt[id(wl[0])]
+            inc = ctx.node(es, incs[0])
+            back = [p_ for (p_, lab) in hdr.pred if cfg.exists_path(hdr, p_) and p_ is not hdr
+                    and cfg.in_loop(p_)]
+            okg = bool(back) and all(
+                not cfg.exists_path(_first_body(cfg, wl[0]), p_, avoiding=[inc, hdr]) or p_ is inc
+                for p_ in back)
+    ctx.check(okg, es, 'the lag advances by one per summed term', 'lag += 1 on every iteration',
+              'the lag is not advanced on every trip round the loop: terms are repeated (or the '
+              'loop does not end)', fn=es, node=wl[0] if wl else es.node)
     one_chain = [s_ for s_ in subterms(tt) if s_[0] == 'ifexp']
     okz = bool(one_chain) and all(
         match(s_[1], pattern('_m == 1')) is not None and s_[2] == ('const', 0)
@@ -472,3 +518,281 @@ def c16_g(ctx):
     ctx.check(okl, es, 'lags 1, 2, ... summed while the estimate is non-negative', '',
               'the autocorrelation sum does not start at lag 1 or does not stop at the first '
               'negative estimate', fn=es, node=loops[0] if loops else es.node)
+
+
+def _first_body(cfg, loop):
+    return cfg.by_stmt[id(loop.body[0])] if id(loop.body[0]) in cfg.by_stmt else \
+        cfg.node_of(loop.body[0])
+
+
+def _all_exits_return(fn):
+    cfg = cfg_of(fn)
+    return not [p for (p, lab) in cfg.ret.pred
+                if not (p.kind == 'stmt' and isinstance(p.ast, ast.Return))]
+
+
+@obligation('C16-h', 'T8 T7', 'the statistics accessors return a mapping from each parameter name '
+            'to the statistic of that parameter\'s own column', floor=6,
+            necessary='a statistic keyed by another name, or computed and not returned, is not '
+                      'the mean / quantile of that parameter')
+def c16_h(ctx):
+    s = ctx.cls(S)
+    for nm, stat in (('sample_means', 'np.average'), ('sample_quantiles',
+                                                       'weighted_sample_quantile')):
+        m = s.methods.get(nm)
+        if m is None:
+            raise AnchorMissing('Sample.' + nm)
+        ctx.touch(m)
+        ex = ctx.ex(m)
+        rr = returns(m)
+        ok = len(rr) == 1 and _all_exits_return(m)
+        if ok:
+            t = ex.term(rr[0].value)
+            mm = match_any(t, ('OrderedDict(_c)', 'dict(_c)', 'collections.OrderedDict(_c)'))
+            c = mm['c'] if mm is not None else (t if t[0] == 'comp' and t[1] == 'dict' else None)
+            ok = c is not None and c[0] == 'comp'
+            if ok:
+                it = c[3][0][0]
+                elt = c[2]
+                if c[1] == 'dict':
+                    k, v = elt[1] if elt[0] == 'tuple' else (None, None)
+                else:
+                    k, v = elt[1] if elt[0] == 'tuple' and len(elt[1]) == 2 else (None, None)
+                ok = k is not None and match(it, pattern('self.samples.items()')) is not None \
+                    and k[0] == 'item' and k[2] == 0 and v[0] == 'call' and \
+                    match(v[1], pattern(stat)) is not None and bool(v[2]) and \
+                    v[2][0] == ('item', k[1], 1) and not c[3][0][1] and len(c[3]) == 1
+        ctx.check(ok, m, '{}: name -> statistic of its own column'.format(nm),
+                  '{{k: {}(v, ...) for k, v in self.samples.items()}}'.format(stat),
+                  '{} does not return, for every parameter name, the statistic of that '
+                  'parameter\'s own column'.format(nm), fn=m, node=rr[0] if rr else m.node)
+    simple = (('sample_means_array', ('np.array(list(self.sample_means.values()))',
+                                      'np.array(tuple(self.sample_means.values()))',
+                                      'np.asarray(list(self.sample_means.values()))')),
+              ('dim', ('len(self.parameter_names)',)),
+              ('discrepancies', ('None if self.discrepancy_name is None else '
+                                 'self.outputs[self.discrepancy_name]',
+                                 'self.outputs[self.discrepancy_name] if '
+                                 'self.discrepancy_name is not None else None')))
+    for nm, pats in simple:
+        m = s.methods.get(nm)
+        if m is None:
+            raise AnchorMissing('Sample.' + nm)
+        ctx.touch(m)
+        ex = ctx.ex(m)
+        rr = returns(m)
+        ok = len(rr) >= 1 and _all_exits_return(m)
+        if ok and len(rr) == 1:
+            ok = match_any(ex.term(rr[0].value), pats) is not None
+        elif ok and nm == 'discrepancies':
+            # if / else form of the same selection
+            vals = set()
+            for r in rr:
+                t = ex.term(r.value)
+                g = [(x, p) for (x, p, _) in ctx.guards(m, r)]
+                if t == ('const', None):
+                    vals.add(('none', any(p and match(x, pattern(
+                        'self.discrepancy_name is None')) is not None for (x, p) in g)))
+                elif match(t, pattern('self.outputs[self.discrepancy_name]')) is not None:
+                    vals.add(('disc', any((not p) and match(x, pattern(
+                        'self.discrepancy_name is None')) is not None for (x, p) in g)))
+                else:
+                    vals.add(('other', False))
+            ok = vals == {('none', True), ('disc', True)}
+        elif ok:
+            ok = False
+        ctx.check(ok, m, nm, pats[0][:70],
+                  '{} is not `{}`'.format(nm, pats[0][:80]), fn=m, node=rr[0] if rr else m.node)
+    init = ctx.own_method(s, '__init__')
+    exi = ctx.ex(init)
+    st = [x for (x, t, k) in ctx.stores(init, 'self.discrepancy_name') if isinstance(x, ast.Assign)]
+    ok = len(st) == 1 and exi.term(st[0].value) == ('param', 'discrepancy_name') and \
+        cfg_of(init).must_pass([ctx.node(init, st[0])])
+    ctx.check(ok, init, 'discrepancy name stored as given',
+              'self.discrepancy_name = discrepancy_name',
+              'the discrepancy name is not stored', fn=init, node=st[0] if st else init.node)
+    base = ctx.cls('elfi.methods.results:ParameterInferenceResult')
+    bi = ctx.own_method(base, '__init__')
+    exb = ctx.ex(bi)
+    for field in ('method_name', 'parameter_names'):
+        st = [x for (x, t, k) in ctx.stores(bi, 'self.' + field) if isinstance(x, ast.Assign)]
+        ok = len(st) == 1 and exb.term(st[0].value) == ('param', field)
+        ctx.check(ok, bi, '{} stored as given'.format(field), 'self.{0} = {0}'.format(field),
+                  'the result does not keep the {} it was given'.format(field), fn=bi,
+                  node=st[0] if st else bi.node)
+    st = [x for (x, t, k) in ctx.stores(bi, 'self.meta') if isinstance(x, ast.Assign)]
+    kw = bi.node.args.kwarg.arg if bi.node.args.kwarg else None
+    ok = len(st) == 1 and kw is not None and exb.term(st[0].value) in (
+        ('param', kw), pattern_term('dict({})'.format(kw)))
+    ctx.check(ok, bi, 'meta information kept', 'self.meta = kwargs',
+              'the extra keyword information (n_sim, threshold, warmup ...) is not kept', fn=bi,
+              node=st[0] if st else bi.node)
+    ga = s.methods.get('__getattr__')
+    if ga is not None:
+        ctx.touch(ga)
+        exg = ctx.ex(ga)
+        p = ga.params[1]
+        rr = returns(ga)
+        ok = len(rr) == 1 and match(exg.term(rr[0].value),
+                                    pattern('self.meta[{}]'.format(p))) is not None and \
+            any(pol and match_any(t, ('{} in self.meta.keys()'.format(p),
+                                      '{} in self.meta'.format(p))) is not None
+                for (t, pol, _) in ctx.guards(ga, rr[0]))
+        rs = ctx.stmts(ga, ast.Raise)
+        ok = ok and bool(rs) and all(any((not pol) and match_any(
+            t, ('{} in self.meta.keys()'.format(p), '{} in self.meta'.format(p))) is not None
+            for (t, pol, _) in ctx.guards(ga, r)) for r in rs)
+        ctx.check(ok, ga, 'meta items readable as attributes',
+                  'return self.meta[item] if present else AttributeError',
+                  '__getattr__ does not return exactly the stored meta item', fn=ga,
+                  node=rr[0] if rr else ga.node)
+
+
+@obligation('C16-i', 'T11 T8', 'save: each format\'s writer runs under its own extension and '
+            'writes the sample\'s own data to the named file', floor=8,
+            necessary='a writer under another extension\'s test, or a document that is built and '
+                      'not written, does not read back as the same samples')
+def c16_i(ctx):
+    s = ctx.cls(S)
+    sv = ctx.own_method(s, 'save')
+    ex = ctx.ex(sv)
+
+    def under(node, kind, others):
+        g = ctx.guards(sv, node)
+        yes = any(pol and match_any(t, ("_k == '{}'".format(kind), "'{}' == _k".format(kind)))
+                  is not None for (t, pol, _) in g)
+        no = not any(pol and match_any(t, ("_k == '{}'".format(o), "'{}' == _k".format(o)))
+                     is not None for (t, pol, _) in g for o in others)
+        return yes and no
+
+    def opened(node, mode):
+        """the `with open(fname, mode ...) as f` around node -> name of f, or None"""
+        n = node
+        while n is not None and n is not sv.node:
+            if isinstance(n, ast.With):
+                for it in n.items:
+                    c = it.context_expr
+                    if isinstance(c, ast.Call) and callee_name(c) == 'open' and c.args and \
+                            ex.term(c.args[0]) == ('param', 'fname') and \
+                            isinstance(it.optional_vars, ast.Name):
+                        md = ex.term(c.args[1]) if len(c.args) > 1 else dict(
+                            (k.arg, ex.term(k.value)) for k in c.keywords).get('mode')
+                        if md == ('const', mode):
+                            return it.optional_vars.id
+            n = getattr(n, '_parent', None)
+        return None
+    # csv
+    hdr = ctx.calls(sv, name='writerow')
+    rows = ctx.calls(sv, name='writerows')
+    okc = len(hdr) == 1 and len(rows) == 1 and under(hdr[0], 'csv', ('json', 'pkl')) and \
+        under(rows[0], 'csv', ('json', 'pkl'))
+    if okc:
+        f = opened(hdr[0], 'w')
+        wr = ex.term(hdr[0].func.value)
+        okc = f is not None and opened(rows[0], 'w') == f and \
+            ex.term(rows[0].func.value) == wr and \
+            match(ex.raw1(hdr[0].func.value) if isinstance(hdr[0].func.value, ast.Name)
+                  else wr, pattern('csv.writer({})'.format(f))) is not None
+    ctx.check(okc, sv, 'csv rows written under .csv to the named file',
+              "if kind == 'csv': with open(fname, 'w') as f: csv.writer(f).writerow/writerows",
+              'the csv writer does not run exactly for the csv extension on the file opened '
+              'from fname', fn=sv, node=hdr[0] if hdr else sv.node)
+    # pkl
+    pk = ctx.calls(sv, 'pickle.dump(self, *_)')
+    okp = len(pk) == 1 and under(pk[0], 'pkl', ()) and len(pk[0].args) >= 2
+    if okp:
+        f = opened(pk[0], 'wb')
+        okp = f is not None and ex.raw(pk[0].args[1]) == ('name', f)
+    ctx.check(okp, sv, 'pickle written under .pkl to the named file (binary)',
+              "elif kind == 'pkl': with open(fname, 'wb') as f: pickle.dump(self, f, ...)",
+              'the pickle is not written exactly for the pkl extension to the file opened from '
+              'fname in binary mode', fn=sv, node=pk[0] if pk else sv.node)
+    # json
+    dumps = ctx.calls(sv, 'json.dumps(_)') + ctx.calls(sv, 'json.dump(_, _)')
+    okj = len(dumps) == 1 and under(dumps[0], 'json', ('pkl',))
+    doc = None
+    if okj:
+        f = opened(dumps[0], 'w')
+        doc = dumps[0].args[0].id if isinstance(dumps[0].args[0], ast.Name) else None
+        if callee_name(dumps[0]) == 'dumps':
+            wr = [c for c in ctx.calls(sv, name='write') if isinstance(c.func.value, ast.Name)
+                  and c.func.value.id == f and c.args and
+                  contains(ex.term(c.args[0]), 'json.dumps(_)')]
+            okj = f is not None and len(wr) == 1 and under(wr[0], 'json', ('pkl',)) and \
+                opened(wr[0], 'w') == f
+        else:
+            okj = f is not None and ex.raw(dumps[0].args[1]) == ('name', f)
+    ctx.check(okj and doc is not None, sv, 'json document written under .json to the named file',
+              "elif kind == 'json': with open(fname, 'w') as f: f.write(json.dumps(data))",
+              'the json document is not serialised and written exactly for the json extension '
+              'to the file opened from fname', fn=sv, node=dumps[0] if dumps else sv.node)
+    if not (okj and doc is not None):
+        return
+    # the document: the object's own fields, converted to plain python types, before dumping
+    fill = [c for c in ctx.calls(sv, 'sample_object_to_dict(*_)') if c.args and
+            ex.raw(c.args[0]) == ('name', doc)]
+    okf = False
+    if len(fill) == 1:
+        callee = ctx.fn('elfi.methods.utils:sample_object_to_dict')
+        from .base import bind_args
+        b = bind_args(fill[0], callee, skip_self=False)
+        okf = b is not None and 'elem' in b and ex.term(b['elem']) == ('param', 'self') and \
+            ctx.must_precede(sv, fill, dumps[0]) and under(fill[0], 'json', ('pkl',)) and \
+            len(ctx.guard_groups(sv, fill[0])) == len(ctx.guard_groups(sv, dumps[0]))
+    ctx.check(okf, sv, 'document filled from the sample itself',
+              'sample_object_to_dict(data, self, ...) before json.dumps(data)',
+              'the json document is not filled from the sample object (unconditionally, before '
+              'it is serialised)', fn=sv, node=fill[0] if fill else dumps[0])
+    conv = [c for c in ctx.calls(sv, 'numpy_to_python_type(_)') if
+            ex.raw(c.args[0]) == ('name', doc)]
+    okv = len(conv) == 1 and ctx.must_precede(sv, conv, dumps[0]) and bool(fill) and \
+        ctx.must_precede(sv, fill, conv[0]) and \
+        len(ctx.guard_groups(sv, conv[0])) == len(ctx.guard_groups(sv, dumps[0]))
+    ctx.check(okv, sv, 'numpy values converted after filling, before serialising',
+              'sample_object_to_dict < numpy_to_python_type < json.dumps',
+              'the document is serialised before its numpy values are converted (json.dumps '
+              'raises on arrays) or converted before it is filled', fn=sv,
+              node=conv[0] if conv else dumps[0])
+    init = [n for n in own_nodes(sv.node) if isinstance(n, ast.Assign) and
+            isinstance(n.targets[0], ast.Name) and n.targets[0].id == doc]
+    oki = len(init) == 1 and match_any(ex.raw(init[0].value), ('OrderedDict()', 'dict()')) \
+        is not None or (len(init) == 1 and ex.raw(init[0].value) == ('dict', ()))
+    ctx.check(oki, sv, 'document starts empty', 'data = OrderedDict()',
+              'the json document is not started as an empty mapping', fn=sv,
+              node=init[0] if init else dumps[0])
+    # populations are written out per population, when the sample has them
+    so = ctx.fn('elfi.methods.utils:sample_object_to_dict')
+    exs = ctx.ex(so)
+    st = [n for n in own_nodes(so.node) if isinstance(n, ast.Assign) and
+          isinstance(n.targets[0], ast.Subscript) and
+          exs.term(n.targets[0].value) == ('param', 'data')]
+    keys = set()
+    for n in st:
+        k = exs.term(n.targets[0].slice)
+        v = exs.term(n.value)
+        if k[0] == 'item' and v[0] == 'item' and k[1] == v[1] and (k[2], v[2]) == (0, 1):
+            keys.add(show(k[1])[:60])
+    ctx.check(len(st) == 2 and len(keys) == 2, so, 'fields and meta items copied under their own '
+              'keys', 'data[key] = val for the object\'s fields and its meta items',
+              'sample_object_to_dict does not copy every (key, value) under its own key', fn=so,
+              node=st[0] if st else so.node)
+    def g(node, pat, pol):
+        return any(p_ == pol and match(t, pattern(pat)) is not None
+                   for (t, p_, _) in ctx.guards(so, node))
+    SKIP = "_k in ['outputs', skip]"
+    META = "_k == 'meta'"
+    oks = len(st) == 2 and all(g(n, SKIP, False) for n in st) and \
+        sorted(g(n, META, True) for n in st) == [False, True] and \
+        sorted(g(n, META, False) for n in st) == [False, True]
+    if oks:
+        meta_st = [n for n in st if g(n, META, True)][0]
+        lo = enclosing_loop(meta_st)
+        oks = isinstance(lo, ast.For) and \
+            match(exs.term(lo.iter, cfg_of(so).by_stmt[id(lo)]),
+                  pattern("elem.__dict__['meta'].items()")) is not None or \
+            (isinstance(lo, ast.For) and contains(
+                exs.term(lo.iter, cfg_of(so).by_stmt[id(lo)]), 'elem.__dict__[_].items()'))
+    ctx.check(oks, so, 'outputs and the named key skipped, meta items flattened, the rest copied',
+              "skip if key in ['outputs', skip]; meta -> its items; else data[key] = val",
+              'sample_object_to_dict does not skip exactly `outputs` and the named key, flatten '
+              'the meta items and copy every other field', fn=so, node=st[0] if st else so.node)
